@@ -33,7 +33,11 @@ const (
 )
 
 func runC07(x *mc.X) {
-	if m := mc.Pick(x, "mode", []string{"product", "origin on a high port", "field value with commas", "caller's context ends as the reply arrives"}); m != "product" {
+	if m := mc.Pick(x, "mode", []string{"product", "origin on a high port", "field value with commas", "caller's context ends as the reply arrives", "unsafe request completes while the target is being validated"}); m != "product" {
+		if m == "unsafe request completes while the target is being validated" {
+			runC07Overlap(x)
+			return
+		}
 		runC07Special(x, m)
 		return
 	}
@@ -269,5 +273,72 @@ func runC07Special(x *mc.X, mode string) {
 		if o.Err == nil && o.Panic == nil && o.Tok == e.tok && len(o.Calls) == 0 {
 			x.Failf(fmt.Sprintf("not invalidated: %s method=%s (%s)", e.what, methodClass(method), mode), "after %s %s -> 200 %s: %s, GET %s is still answered from the store without validation: %s", method, target, field, loc, e.url, o)
 		}
+	}
+}
+
+// runC07Overlap: the stored response is being validated (in the foreground, or in the background under
+// stale-while-revalidate) when an unsafe request for the same URI succeeds; the validation's answer arrives afterwards.
+// What was stored before the unsafe request must not come back.
+func runC07Overlap(x *mc.X) {
+	method := mc.Pick(x, "method", []string{"POST", "DELETE", "FOO"})
+	path := mc.Pick(x, "validation", []string{"foreground", "background (stale-while-revalidate)"})
+	answer304 := mc.Pick(x, "validation-answer", []string{"304", "304+max-age=1000"})
+	w := world.New(world.Opt{})
+	defer w.Close()
+	ccv := "max-age=5"
+	if path != "foreground" {
+		ccv = "max-age=5, stale-while-revalidate=1000"
+	}
+	answer(w, RS{Status: 200, H: H("Cache-Control", ccv, "ETag", `"v1"`)})
+	o1 := get(w, c07T)
+	logObs(x, "GET (stored)", o1)
+	world.Advance(secs(10))
+	var ou *world.Obs
+	answerFn(w, func(o *world.Origin, c *world.Call) (*http.Response, error) {
+		if c.Method != "GET" {
+			return o.Respond(c, RS{Status: 200, Body: []byte{}}), nil
+		}
+		if c.Header.Get("If-None-Match") == "" {
+			return o.Respond(c, RS{Status: 200, H: H("Cache-Control", "no-store")}), nil
+		}
+		if path == "foreground" && ou == nil {
+			// the unsafe request runs to completion while this validation is at the origin
+			req, _ := http.NewRequest(method, c07T, nil)
+			resp, err := w.RT.RoundTrip(req)
+			ou = &world.Obs{Err: err}
+			if err == nil {
+				ou.Status = resp.StatusCode
+				_ = resp.Body.Close()
+			}
+		} else if path != "foreground" {
+			_ = world.Sleep(c.Req, secs(2))
+		}
+		h := H("ETag", `"v1"`)
+		if answer304 != "304" {
+			h = append(h, [2]string{"Cache-Control", "max-age=1000"})
+		}
+		return o.Respond(c, RS{Status: 304, NoTok: true, H: h}), nil
+	})
+	o2 := get(w, c07T)
+	logObs(x, "GET 5 s stale (validation "+path+")", o2)
+	if path != "foreground" {
+		req, _ := http.NewRequest(method, c07T, nil)
+		ou = w.Do(req)
+		logObs(x, method+" while the background validation is at the origin", ou)
+	}
+	world.Advance(secs(5)) // the 304 has arrived by now
+	x.Nontrivial("overlap/" + path + "/" + methodClass(method))
+	if ou == nil || ou.Err != nil || ou.Status != 200 {
+		x.Note("the unsafe request did not run as scripted")
+		return
+	}
+	answerFn(w, func(o *world.Origin, c *world.Call) (*http.Response, error) {
+		return o.Respond(c, RS{Status: 200, H: H("Cache-Control", "no-store")}), nil
+	})
+	o3 := get(w, c07T)
+	logObs(x, "GET afterwards", o3)
+	x.State("overlap", path, method, answer304, obsClass(o3))
+	if o3.Err == nil && o3.Panic == nil && o3.Tok == o1.Tok && len(o3.Calls) == 0 {
+		x.Failf(fmt.Sprintf("not invalidated: the response stored before the unsafe request came back with the validation that was in flight (%s)", path), "%s %s succeeded while the stored response was being validated; afterwards GET is answered from the store without validation: %s", method, c07T, o3)
 	}
 }
